@@ -12,7 +12,7 @@
 
 namespace vs { namespace thr {
 
-enum {ST_RUNNABLE = 0, ST_BL_MUTEX, ST_BL_COND, ST_BL_JOIN, ST_BL_POLL, ST_BL_SLEEP, ST_FINISHED, ST_BL_ALL, ST_BL_PRED};
+enum {ST_RUNNABLE = 0, ST_BL_MUTEX, ST_BL_COND, ST_BL_JOIN, ST_BL_POLL, ST_BL_SLEEP, ST_FINISHED, ST_BL_ALL, ST_BL_PRED, ST_BL_CV};
 
 struct SchedConfig
 {
@@ -24,10 +24,13 @@ struct SchedConfig
    int pTimeoutPct = 5;         // probability of firing the earliest pending timeout although something is enabled
    int pSpuriousPollPct = 2;    // probability that a blocking poll returns 0 ready early (legal)
    uint64_t stepCap = 40000;    // livelock bound
+   bool realCv = false;         // true: WaitCondition runs its real std::condition_variable code; the scheduler then simulates the pthread_cond_* calls underneath
+                                //       (symbol interposition) instead of replacing Wait()/Notify() wholesale through the condWait/condNotify hooks
+   int pSpuriousCvPct = 0;      // realCv: probability that a pthread_cond wait is woken without a signal (legal for a condition variable)
    std::vector<int> replay;     // if non-empty: recorded decisions (thread ids, -1 = advance clock) fed back instead of the PRNG
 };
 
-struct SchedStats {uint64_t steps = 0, switches = 0, timeoutsFired = 0, spuriousPolls = 0, preemptions = 0, maxThreads = 0, clockAdvances = 0;};
+struct SchedStats {uint64_t steps = 0, switches = 0, timeoutsFired = 0, spuriousPolls = 0, preemptions = 0, maxThreads = 0, clockAdvances = 0, cvWaits = 0, cvSignals = 0, cvSpurious = 0, cvSignalsNoWaiter = 0;};
 
 // --- life cycle (called by the workload, on the main thread of the forked child)
 void Begin(const SchedConfig & cfg);                 // registers the calling thread as thread 0 and installs the hooks
